@@ -281,7 +281,7 @@ def rand_dm(rng, n):
 
 
 def to_arr(x, shape):
-    """`total = 0` of apply_gates when a Hamiltonian has no terms and no constant"""
+    """`total = 0` of apply_gates_prefix when a Hamiltonian has no terms and no constant"""
     if isinstance(x, (int, float, complex)):
         return np.zeros(shape, dtype=complex) + x
     return np.asarray(x)
@@ -350,10 +350,10 @@ def check_symbolic(run, B, tag, ast, n, rng, expr=None, deep=True):
         rp = {**desc, "psi": [[int(x.real), int(x.imag)] for x in psi]}
         cls = "order" if multi else "plain"
         # faithful model
-        B.add(f"{tag}:apply_model", f"meqb (apply_gates {n}%nat (terms_of {orc}) {P}) {ccol(hpsi)}", {**rp, "what": "h @ psi vs model of apply_gates"})
-        B.add(f"{tag}:apply_dm_model", f"meqb (apply_gates {n}%nat (terms_of {orc}) {R}) {cmat(hrho)}", {**rp, "what": "h @ rho vs model of apply_gates"})
-        B.add(f"{tag}:expect_model", f"({zint(ev)} =? sym_expect_state {n}%nat (terms_of {orc}) {P})", {**rp, "what": "expectation(psi) vs model"})
-        B.add(f"{tag}:expect_dm_model", f"({zint(evd)} =? sym_expect_dm {n}%nat (terms_of {orc}) {R})", {**rp, "what": "expectation(rho) vs model"})
+        B.add(f"{tag}:apply_model", f"meqb (apply_gates_prefix {n}%nat (terms_of {orc}) {P}) {ccol(hpsi)}", {**rp, "what": "h @ psi vs model of apply_gates_prefix"})
+        B.add(f"{tag}:apply_dm_model", f"meqb (apply_gates_prefix {n}%nat (terms_of {orc}) {R}) {cmat(hrho)}", {**rp, "what": "h @ rho vs model of apply_gates_prefix"})
+        B.add(f"{tag}:expect_model", f"({zint(ev)} =? sym_expect_state_prefix {n}%nat (terms_of {orc}) {P})", {**rp, "what": "expectation(psi) vs model"})
+        B.add(f"{tag}:expect_dm_model", f"({zint(evd)} =? sym_expect_dm_prefix {n}%nat (terms_of {orc}) {R})", {**rp, "what": "expectation(rho) vs model"})
         # specification
         B.add(f"{tag}:apply_spec:{cls}", f"meqb (apply_spec {n}%nat {A} {P}) {ccol(hpsi)}",
               {**rp, "what": "h @ psi vs [[form]] psi", "impl": [[int(x.real), int(x.imag)] for x in hpsi], "kind": "apply"})
@@ -362,12 +362,12 @@ def check_symbolic(run, B, tag, ast, n, rng, expr=None, deep=True):
               {**rp, "what": "h.expectation(psi) vs Re <psi|[[form]]|psi>", "impl": float(ev), "kind": "expect"})
         B.add(f"{tag}:expect_dm_spec:{cls}", f"({zint(evd)} =? dense_expect_dm (denote {n}%nat {A}) {R})", {**rp, "what": "h.expectation(rho) vs Re tr([[form]] rho)", "kind": "expect_dm"})
         if multi:   # the repaired model (factors applied last-to-first), in case /repo has been repaired
-            B.add(f"{tag}:apply_modelfixed", f"meqb (apply_gates_fixed {n}%nat (terms_of {orc}) {P}) {ccol(hpsi)}", rp, expect=None)
-            B.add(f"{tag}:apply_dm_modelfixed", f"meqb (apply_gates_fixed {n}%nat (terms_of {orc}) {R}) {cmat(hrho)}", rp, expect=None)
-            B.add(f"{tag}:expect_modelfixed", f"({zint(ev)} =? expect_state (apply_gates_fixed {n}%nat (terms_of {orc}) {P}) {P})", rp, expect=None)
-            B.add(f"{tag}:expect_dm_modelfixed", f"({zint(evd)} =? expect_dm (apply_gates_fixed {n}%nat (terms_of {orc}) {R}))", rp, expect=None)
+            B.add(f"{tag}:apply_modelfixed", f"meqb (apply_gates {n}%nat (terms_of {orc}) {P}) {ccol(hpsi)}", rp, expect=None)
+            B.add(f"{tag}:apply_dm_modelfixed", f"meqb (apply_gates {n}%nat (terms_of {orc}) {R}) {cmat(hrho)}", rp, expect=None)
+            B.add(f"{tag}:expect_modelfixed", f"({zint(ev)} =? expect_state (apply_gates {n}%nat (terms_of {orc}) {P}) {P})", rp, expect=None)
+            B.add(f"{tag}:expect_dm_modelfixed", f"({zint(evd)} =? expect_dm (apply_gates {n}%nat (terms_of {orc}) {R}))", rp, expect=None)
         # classification of a spec failure: is it exactly the factor order?
-        B.add(f"{tag}:apply_fixed", f"meqb (apply_gates_fixed {n}%nat (terms_of {orc}) {P}) (apply_spec {n}%nat {A} {P})", {**rp, "what": "model with reversed factor order vs spec"})
+        B.add(f"{tag}:apply_fixed", f"meqb (apply_gates {n}%nat (terms_of {orc}) {P}) (apply_spec {n}%nat {A} {P})", {**rp, "what": "model with reversed factor order vs spec"})
         # dense route
         B.add(f"{tag}:dense_apply", f"meqb (apply_spec {n}%nat {A} {P}) {ccol(dpsi)} && meqb (apply_spec {n}%nat {A} {R}) {cmat(drho)}", {**rp, "what": "h.dense @ psi / rho"})
         B.add(f"{tag}:dense_expect", f"({zint(evD)} =? dense_expect_state (denote {n}%nat {A}) {P}) && ({zint(evdD)} =? dense_expect_dm (denote {n}%nat {A}) {R})", {**rp, "what": "h.dense.expectation"})
@@ -620,10 +620,10 @@ def run_samples(run, rng, only=None):
             run.case(["samples", desc["form"], fr, qmap])
             if k < 2:
                 run.sample({"kind": "expectation_from_samples", **desc, "value": float(val)})
-            B.add(f"s{k}:samples_model", f"opair_eqb (sym_samples (terms_of {orc}) {freq_coq(fr)} {znats(qm)}) (Some ({V}, {total}))",
+            B.add(f"s{k}:samples_model", f"opair_eqb (sym_samples_prefix (terms_of {orc}) {freq_coq(fr)} {znats(qm)}) (Some ({V}, {total}))",
                   {**desc, "case": f"sym:{desc['form']}", "what": "SymbolicHamiltonian.expectation_from_samples vs model"})
             if multi:
-                B.add(f"s{k}:samples_modelfixed", f"opair_eqb (sym_samples_fixed (terms_of {orc}) {freq_coq(fr)} {znats(qm)}) (Some ({V}, {total}))", desc, expect=None)
+                B.add(f"s{k}:samples_modelfixed", f"opair_eqb (sym_samples (terms_of {orc}) {freq_coq(fr)} {znats(qm)}) (Some ({V}, {total}))", desc, expect=None)
             B.add(f"s{k}:samples_spec:{'order' if multi else 'plain'}",
                   f"({V} =? samples_spec {n}%nat (denote {n}%nat {A}) {freq_coq(fr)} {znats(qm)})",
                   {**desc, "value": float(val), "what": "expectation_from_samples vs frequency-weighted eigenvalues of [[form]]"},
@@ -635,11 +635,11 @@ def run_samples(run, rng, only=None):
                 Vd = f"(Some ({samples_value(vd, total)}, {total}))"
             except (IndexError, ValueError, TypeError) as e:
                 vd, Vd = None, "None"
-            B.add(f"s{k}:dsamples_model", f"opair_eqb (dense_samples {cmat(h.matrix)} {freq_coq(fr)} {znats(qm)}) {Vd}",
+            B.add(f"s{k}:dsamples_model", f"opair_eqb (dense_samples_prefix {cmat(h.matrix)} {freq_coq(fr)} {znats(qm)}) {Vd}",
                   {**desc, "case": f"dense:{desc['form']}", "what": "Hamiltonian.expectation_from_samples vs model"})
             full = sorted(qm) == list(range(n))
             if not full:
-                B.add(f"s{k}:dsamples_modelfixed", f"opair_eqb (dense_samples_fixed {n}%nat {cmat(h.matrix)} {freq_coq(fr)} {znats(qm)}) {Vd}", desc, expect=None)
+                B.add(f"s{k}:dsamples_modelfixed", f"opair_eqb (dense_samples {n}%nat {cmat(h.matrix)} {freq_coq(fr)} {znats(qm)}) {Vd}", desc, expect=None)
             if vd is not None:
                 B.add(f"s{k}:dsamples_spec:{'full' if full else 'partial'}",
                       f"({samples_value(vd, total)} =? samples_spec {n}%nat (denote {n}%nat {A}) {freq_coq(fr)} {znats(qm)})",
@@ -660,7 +660,7 @@ def run_samples(run, rng, only=None):
         except Exception:
             refused = True
         run.case(["samples-malformed", why], nontrivial=False)
-        B.add(f"sbad{j}:samples_reject", f"opair_eqb (sym_samples (terms_of {oracle_monomials(h.form)}) {freq_coq(fr)} {znats(qmap)}) None",
+        B.add(f"sbad{j}:samples_reject", f"opair_eqb (sym_samples_prefix (terms_of {oracle_monomials(h.form)}) {freq_coq(fr)} {znats(qmap)}) None",
               {"case": f"malformed:{why}", "mechanism": "samples", "what": "model refuses what the implementation refuses"},
               expect=refused)
         if not refused:
